@@ -4,7 +4,7 @@ implementation on the interfaces the property depends on and the direct oracles,
 violations (counterexample or no-failing-input-found)."""
 import hashlib, itertools, json, os, pickle, random, re, shutil, subprocess, sys, time
 sys.path.insert(0, os.path.dirname(os.path.abspath(__file__)))
-import vlib, gram, genrun, backend, i6check
+import vlib, gram, genrun, backend, i6check, cliprops
 
 TRUSTED_BASE = [
     'Coq 8.16.1 kernel (coqc; coqchk in the thorough tier); vm_compute in Examples; no native_compute',
@@ -828,5 +828,18 @@ reg('C15', run_C15, ['Prop_C15.v'], I6RULE + 'histories: 2-6 parses in a row on 
     level_text='Proved in Coq: after ParserInit the run equals the run from the fresh state, in global mode for every previous state and in object mode for every state whose cell 0 holds the initial entry (C15_reinit_global, C15_reinit_object). Histories of 2-6 parses mixing accepted and rejected inputs on one parser/context, and parses on a second context started in the middle of another parse, are run on the real parsers and compared with the same parses alone. Data races are runtime behaviour outside the model (partial).',
     level_note=MODEL_NOTE)
 
+reg('C19', cliprops.run_C19, ['Prop_C19.v'], 'fault enumeration: one or more failing inputs per kind of input-caused failure (lexical: stray character, unclosed comment, unbalanced action, bad character literal, unclosed prologue; syntax: missing %%, stray number, %type without tag, %prec without symbol; undefined symbol; undefined start symbol; %type without rule; unproductive nonterminal; $n too big / zero / on an empty rule / on an untyped symbol / in a late rule) x {go, go -u, go -o, go -o -u, typescript} through the CLI built from /repo with a pre-existing output file: exit status and bytes afterwards; successful generations over no file and over a longer pre-existing file must be byte-identical and end with the epilogue; FsModel.predict (extracted) is compared with each observation. non-trivial = distinct (fault kind, target)',
+    technique='Coq theorem over the step model of the generators (create after every fallible step; create truncates) + fault enumeration through the real CLI with a pre-existing file, compared with the model prediction',
+    level_text='Proved in Coq over FsModel (the step sequence of TemplateGenFromString/TsGenFromString): a failure at any input-caused step leaves every path untouched (C19_atomic); a success leaves exactly the generated text at the output path and touches nothing else (C19_complete); success iff no step fails (C19_success_iff). The tie to the code is a fault enumeration on every run: every kind of input-caused failure x five targets through the real CLI with a pre-existing file (bytes and exit status), plus successful generations over a longer pre-existing file compared byte-for-byte with a fresh generation.',
+    level_note=MODEL_NOTE + ' os.Create/Write failures (permissions, disk full) are not input-caused and not modelled. TooManyStates (>2000 states) is not in the fault list.')
+reg('C14', cliprops.run_C14, ['Prop_C14.v'], 'repeated runs: every corpus grammar (curated families, seeded random grammars with many auto-numbered tokens / many states / nullable cycles / precedences, operator tables, a hand-written includes-cycle grammar, the repo examples) x {go, go -u, go -o, go -o -u, typescript} is generated N times (quick 6, thorough 40) by the CLI built from /repo in separate processes (Go re-randomises map iteration per process and per range statement); outputs compared byte for byte. non-trivial = distinct (grammar, target) that generate successfully',
+    technique='Coq lemma (sorting the keys removes dependence on iteration order) + N repeated CLI runs per grammar and option set in separate processes with byte comparison',
+    level_text='Proved in Coq: a stable insertion sort over a total order gives the same list for every permutation of its input (C14_sort_independent), which is the argument for every site where yaccgo ranges over a map after sorting the keys. Whether every map-iteration site of the code is of that kind is not proved; it is checked on every run by generating every corpus grammar N times in separate processes for all five targets and comparing bytes (the schedule = Go\'s per-process map order). Partial: only Permutation-orders are modelled.',
+    level_note=MODEL_NOTE + ' Scheduler/allocator effects are outside the model (none are used by yaccgo).')
+reg('C13', cliprops.run_C13, ['Prop_C13.v'], 'texts: every prefix (quick: a random sample of cut points; thorough: all) of the repo examples, curated grammars and a feature-rich hand-written grammar; 25/400 random byte edits each (delete, insert of structural tokens, duplicate, bit flip, random byte, swap); a list of truncations ending right after a construct that waits for more tokens; inputs with non-ASCII letters and digits. Each text goes through generate go, generate typescript and debug in-process under a 4 s deadline per entry point (normal: milliseconds) and a sample through the real CLI in separate processes under 6 s. non-trivial = texts on which at least one entry point stops with a diagnostic',
+    technique='Coq theorem (the lexer model is a fold over the bytes, hence total) + deadline runs of generate/debug on prefixes and random edits of grammar files',
+    level_text='The termination argument is carried by the shape of the model: the lexer is a one-byte transducer folded over the input (total by construction, C13_lexer_total restates its composition law), the LR(0) worklist is bounded by the 2000-state cap, closure and productivity sweeps by |rules|+1 (C09_closure_complete, C12_productive). What ties this to the Go code (state functions that could stop consuming input, a parser loop that could wait on a closed channel) is the deadline run: every prefix and random edits of well-formed files through generate go / generate typescript / debug. Partial: the parser loops of Parser.go are not yet modelled in Coq; OS scheduling and the Go runtime are outside the model.',
+    level_note=MODEL_NOTE)
+
 NOT_CLAIMED = {pid: 'check under construction: the model and harness for this property are not registered yet (see DESIGN.md section 5.%s); no claim is made' % pid
-               for pid in ['C10', 'C11', 'C12', 'C13', 'C14', 'C16', 'C17', 'C18', 'C19']}
+               for pid in ['C10', 'C11', 'C12', 'C16', 'C17', 'C18']}
